@@ -123,17 +123,45 @@ def simulate(cfg: CFG, env: Callable[[ast.expr], Optional[bool]], start: Optiona
                 return
             seen = {**seen, -node.id - 1: visits + 1}
         trail = trail + [node]
+        # how a `finally` block was entered decides how it is left: by the pending return / exception, or normally
+        pending = seen.get(("pending",))
         if node.id == cfg.exit.id:
             prev = trail[-2] if len(trail) > 1 else None
+            if pending is not None and pending[0] == "return":
+                prev = pending[1]
             if prev is not None and isinstance(prev.ast, ast.Return):
                 outcomes.append(Outcome("return", prev, trail))
             else:
                 outcomes.append(Outcome("fallthrough", prev, trail))
             return
         if node.id == cfg.raise_exit.id:
-            outcomes.append(Outcome("raise", trail[-2] if len(trail) > 1 else None, trail))
+            prev = trail[-2] if len(trail) > 1 else None
+            if pending is not None and pending[0] == "raise":
+                prev = pending[1]
+            outcomes.append(Outcome("raise", prev, trail))
             return
         succ = cfg.succ[node.id]
+        if node.kind == "handler" and pending is not None:
+            seen = {k: v for k, v in seen.items() if k != ("pending",)}  # caught: nothing is pending any more
+            pending = None
+        if isinstance(node.ast, (ast.Raise, ast.Return)) and node.kind == "stmt" and any(cfg.nodes[n_].label == "finally" for n_, _ in succ):
+            seen = {**seen, ("pending",): ("raise" if isinstance(node.ast, ast.Raise) else "return", node)}
+        elif node.kind == "stmt" and not isinstance(node.ast, (ast.Raise, ast.Return)) and any(lab == "return" for _, lab in succ):
+            # the end of a finally block
+            if pending is not None and pending[0] == "raise":
+                for nxt, label in succ:
+                    if label == "exc":
+                        walk(cfg.nodes[nxt], trail, seen)
+                return
+            if pending is not None and pending[0] == "return":
+                for nxt, label in succ:
+                    if label == "return":
+                        walk(cfg.nodes[nxt], trail, seen)
+                return
+            for nxt, label in succ:
+                if label not in ("exc", "return"):
+                    walk(cfg.nodes[nxt], trail, seen)
+            return
         # locals set to None on this path (a refused-fetch marker, a not-found default): `x is None` is decided by them
         if node.kind != "test" and node.ast is not None and not isinstance(node.ast, ast.expr):
             stored: Set[str] = set()
@@ -313,6 +341,21 @@ def run_int_cfg(
     pending_exc: Optional[ast.expr] = None
     returning = False
 
+    raising_try: Optional[ast.Try] = None
+
+    def route(start: ast.AST, exc_expr: Optional[ast.expr]):
+        """Where an exception raised at *start* goes next: the first matching handler or the first finally block on its way out."""
+        for tr, part in enclosing_tries_of(start, fn):
+            if part == "body":
+                for h in tr.handlers:
+                    if exc_expr is not None and ctx.exc_matches(fn, exc_expr, h.type):
+                        return (cfg.node_of(h) or cfg.raise_exit), None
+            if tr.finalbody and part != "finalbody":
+                fin = next((n for n in cfg.nodes if n.label == "finally" and getattr(n, "_try", None) is tr), None)
+                if fin is not None:
+                    return fin, tr
+        return cfg.raise_exit, None
+
     def atoms(expr: ast.AST):
         if isinstance(expr, ast.Name) and expr.id in state:
             return state[expr.id]
@@ -344,17 +387,10 @@ def run_int_cfg(
         exc = raises_at(node, visits[node.id])
         if exc is not None:
             pending_exc = exc
-            target = None
-            for tr, part in enclosing_tries_of(node, fn):
-                if part != "body":
-                    continue
-                for h in tr.handlers:
-                    if ctx.exc_matches(fn, exc, h.type):
-                        target = cfg.node_of(h)
-                        break
-                if target is not None:
-                    break
-            node = target or cfg.raise_exit
+            if node.ast is None:
+                node, raising_try = cfg.raise_exit, None
+            else:
+                node, raising_try = route(node.ast, exc)
             continue
         stmt = node.ast
         if node.kind == "test":
@@ -418,17 +454,11 @@ def run_int_cfg(
             pending_exc = exc_expr
             # find the handler: use CFG edge for explicit raises (already matched by class)
             succ = cfg.succ[node.id]
-            if stmt.exc is None:
-                # re-raise out of the handler: leaves the enclosing try of the handler
-                node = cfg.raise_exit
-                for tr, part in enclosing_tries_of(node_stmt_anchor(stmt), fn):
-                    if part == "body":
-                        for h in tr.handlers:
-                            if exc_expr is not None and ctx.exc_matches(fn, exc_expr, h.type):
-                                node = cfg.node_of(h) or cfg.raise_exit
-                                break
-                continue
-            node = cfg.nodes[succ[0][0]] if succ else cfg.raise_exit
+            node, raising_try = route(stmt, exc_expr)
+            continue
+        if raising_try is not None and node.kind == "stmt" and any(lab == "return" for _, lab in cfg.succ[node.id]):
+            # the end of the finally block an exception passed through: it travels on
+            node, raising_try = route(raising_try, pending_exc)
             continue
         succ = [(n, lab) for n, lab in cfg.succ[node.id] if lab != "exc"]
         if node.kind == "iter":
